@@ -150,7 +150,11 @@ def execute(case):
             v["case"] = case
         return R(r["label"], viols=r["viols"])
     if case["k"] == "step":
-        o, nt, vs = chk_step(case["root"], case["i"], tuple(case["mode"]))
+        if case["mode"][0] != "real":
+            from ..core import isolated      # substituted PRF: a fresh process, so no cache filled under another PRF can answer
+            o, nt, vs = isolated(chk_step, case["root"], case["i"], tuple(case["mode"]))
+        else:
+            o, nt, vs = chk_step(case["root"], case["i"], tuple(case["mode"]))
         return R(o, nontrivial=nt, viols=vs)
     if case["k"] == "tree":
         r = Tree(case["root"], case["alphabet"]).run(case["hist"])
